@@ -356,7 +356,7 @@ func (s *socket) MaybeUpgrade(transport transports.Transport) {
 	// goroutines: exactly one of them concludes it, and nothing is armed for an
 	// attempt that is over
 	var mu sync.Mutex
-	finished := false
+	finished, probed := false, false
 	conclude := func() bool {
 		mu.Lock()
 		defer mu.Unlock()
@@ -378,12 +378,13 @@ func (s *socket) MaybeUpgrade(transport transports.Transport) {
 
 			mu.Lock()
 			if !finished {
+				probed = true
 				utils.ClearInterval(checkIntervalTimer.Load())
 				checkIntervalTimer.Store(utils.SetInterval(check, 100*time.Millisecond))
 			}
 			mu.Unlock()
 
-		} else if packet.UPGRADE == data.Type && s.ReadyState() != "closed" {
+		} else if packet.UPGRADE == data.Type && probed && s.ReadyState() != "closed" {
 			if !conclude() {
 				return
 			}
